@@ -119,3 +119,44 @@ package storage
 //@     |   && has(storage.prepareStorage[pp.content.SignedHeader().BlockHeight()][pp.content.SignedHeader().View()][content(pp.content.SignedHeader().BlockHash())], qk))
 //@     | ==> has(storage.prepareStorage[pp.content.SignedHeader().BlockHeight()][pp.content.SignedHeader().View()][content(pp.content.SignedHeader().BlockHash())], qk)
 //@     |   && storage.prepareStorage[pp.content.SignedHeader().BlockHeight()][pp.content.SignedHeader().View()][content(pp.content.SignedHeader().BlockHash())][qk] == old(storage.prepareStorage[pp.content.SignedHeader().BlockHeight()][pp.content.SignedHeader().View()][content(pp.content.SignedHeader().BlockHash())][qk])
+
+// ---- VIEW_CHANGE: one vote per sender for a (height, view); the first one stored wins ----
+//@ pred VoteMapsOK(storage *InMemoryStorage) = (forall h int :: has(storage.viewChangeStorage, h) ==> storage.viewChangeStorage[h] != nil)
+//@   | && (forall h int, v int :: has(storage.viewChangeStorage, h) && has(storage.viewChangeStorage[h], v) ==> storage.viewChangeStorage[h][v] != nil)
+//@ func (*InMemoryStorage).StoreViewChange
+//@   props C10 C09 C07
+//@   requires storage.viewChangeStorage != nil && vcm != nil && vcm.content != nil
+//@   objinv [inner-maps-exist] VoteMapsOK(storage)
+//@   modifies M:Int:Int#2, M:Int:Int#1, M:Str:Int
+//@   ensures [stored-under-its-own-height-view-and-sender] has(storage.viewChangeStorage, vcm.content.SignedHeader().BlockHeight()) && has(storage.viewChangeStorage[vcm.content.SignedHeader().BlockHeight()], vcm.content.SignedHeader().View())
+//@     | && has(storage.viewChangeStorage[vcm.content.SignedHeader().BlockHeight()][vcm.content.SignedHeader().View()], content(vcm.content.Sender().MemberId()))
+//@     | && (result ==> storage.viewChangeStorage[vcm.content.SignedHeader().BlockHeight()][vcm.content.SignedHeader().View()][content(vcm.content.Sender().MemberId())] == vcm)
+//@   ensures [first-vote-of-a-sender-wins] old(has(storage.viewChangeStorage, vcm.content.SignedHeader().BlockHeight()) && has(storage.viewChangeStorage[vcm.content.SignedHeader().BlockHeight()], vcm.content.SignedHeader().View())
+//@     |   && has(storage.viewChangeStorage[vcm.content.SignedHeader().BlockHeight()][vcm.content.SignedHeader().View()], content(vcm.content.Sender().MemberId()))) ==> !result
+//@   ensures [nothing-stored-under-this-key-is-lost-or-replaced] forall qk Str :: old(has(storage.viewChangeStorage, vcm.content.SignedHeader().BlockHeight()) && has(storage.viewChangeStorage[vcm.content.SignedHeader().BlockHeight()], vcm.content.SignedHeader().View())
+//@     |   && has(storage.viewChangeStorage[vcm.content.SignedHeader().BlockHeight()][vcm.content.SignedHeader().View()], qk))
+//@     | ==> has(storage.viewChangeStorage[vcm.content.SignedHeader().BlockHeight()][vcm.content.SignedHeader().View()], qk)
+//@     |   && storage.viewChangeStorage[vcm.content.SignedHeader().BlockHeight()][vcm.content.SignedHeader().View()][qk] == old(storage.viewChangeStorage[vcm.content.SignedHeader().BlockHeight()][vcm.content.SignedHeader().View()][qk])
+
+//@ func (*InMemoryStorage).GetViewChangeMessages
+//@   props C10 C09 C07
+//@   requires storage.viewChangeStorage != nil
+//@   ensures [found-iff-votes-are-stored-for-this-height-and-view] result1 == (has(storage.viewChangeStorage, blockHeight) && has(storage.viewChangeStorage[blockHeight], view))
+//@   ensures [only-votes-stored-for-this-height-and-view] result1 ==> (forall i int :: 0 <= i && i < len(result0) ==> (exists k Str :: has(storage.viewChangeStorage[blockHeight][view], k) && storage.viewChangeStorage[blockHeight][view][k] == result0[i]))
+//@   ensures [as-many-as-stored] result1 ==> len(result0) == len(storage.viewChangeStorage[blockHeight][view])
+//@   loop range senders
+//@     invariant [values] i == $i && len(result) == len(senders) && (forall j int :: 0 <= j && j < i ==> (exists k Str :: has(senders, k) && senders[k] == result[j]))
+
+// ---- disposal of a term: the logs of its height start over empty, the height below is dropped, other heights stay ----
+//@ func (*InMemoryStorage).ClearBlockHeightLogs
+//@   props C10 C13
+//@   requires StoreOK(storage)
+//@   modifies M:Int:Int#1, M:Int:Int#2, M:Int:Int#3, M:Int:Int
+//@   ensures [the-logs-of-this-height-start-over-empty] has(storage.preprepareStorage, blockHeight) && has(storage.prepareStorage, blockHeight) && has(storage.commitStorage, blockHeight) && has(storage.viewChangeStorage, blockHeight)
+//@     | && (forall v int :: !has(storage.preprepareStorage[blockHeight], v) && !has(storage.prepareStorage[blockHeight], v) && !has(storage.commitStorage[blockHeight], v) && !has(storage.viewChangeStorage[blockHeight], v))
+//@   ensures [the-height-below-is-dropped] blockHeight > 0 ==> !has(storage.preprepareStorage, blockHeight - 1) && !has(storage.prepareStorage, blockHeight - 1) && !has(storage.commitStorage, blockHeight - 1) && !has(storage.viewChangeStorage, blockHeight - 1)
+//@   ensures [other-heights-are-untouched] forall h int :: h != blockHeight && h != blockHeight - 1 ==>
+//@     | has(storage.preprepareStorage, h) == old(has(storage.preprepareStorage, h)) && storage.preprepareStorage[h] == old(storage.preprepareStorage[h])
+//@     | && has(storage.prepareStorage, h) == old(has(storage.prepareStorage, h)) && storage.prepareStorage[h] == old(storage.prepareStorage[h])
+//@     | && has(storage.commitStorage, h) == old(has(storage.commitStorage, h)) && storage.commitStorage[h] == old(storage.commitStorage[h])
+//@     | && has(storage.viewChangeStorage, h) == old(has(storage.viewChangeStorage, h)) && storage.viewChangeStorage[h] == old(storage.viewChangeStorage[h])
